@@ -70,7 +70,7 @@ TRet ==
 TFs ==
     /\ IsEvent("fs") /\ obs.phase = "running"
     /\ made' = IF Ev.n > 0 /\ Ev.nsame > 0 THEN {1} ELSE {}
-    /\ dst' = [f \in 1..1 |-> IF Ev.allsame THEN Src(1) ELSE Cont(0, FALSE)]
+    /\ dst' = [f \in 1..1 |-> IF Ev.allsame THEN Src(1) ELSE Cont(0, 1)]
     /\ obs' = [obs EXCEPT !.phase = "judged", !.extra = Ev.extra, !.touched = Ev.touched, !.shown = Ev.shown,
                           !.n = Ev.n, !.nsame = Ev.nsame, !.npresent = Ev.npresent, !.keptok = Ev.keptok,
                           !.vmgrow = Ev.vmgrow, !.pdata = Ev.pdata, !.pkeep = Ev.pkeep, !.dataafter = Ev.dataafter, !.pausems = Ev.pausems]
